@@ -4,6 +4,9 @@ package props
 import (
 	_ "verifharness/props/c02"
 	_ "verifharness/props/c03"
+	_ "verifharness/props/c11"
 	_ "verifharness/props/c12"
+	_ "verifharness/props/c15"
 	_ "verifharness/props/c17"
+	_ "verifharness/props/c19"
 )
